@@ -197,7 +197,7 @@ def view_state(ev):
     mapping = {k: sorted(ev[k]) for k in sorted(ev.keys())}
     atts = {k: dict(sorted(v.items())) for k, v in sorted(ev.get_attachments().items()) if len(v)}
     return {'type': ev.get_type_name(), 'source': ev.get_source_uri(), 'props': props, 'mapping': mapping, 'len': len(ev),
-            'atts': atts, 'parents': sorted(set(ev.get_parent_hashes())),
+            'atts': atts, 'parents': sorted(ev.get_parent_hashes()),
             'foreign': dict(sorted(ev.get_foreign_attributes().items()))}
 
 
@@ -223,7 +223,7 @@ def xml_state(ev):
     return {'type': el.get('event-type'), 'source': el.get('source-uri'),
             'props': {k: sorted(v) for k, v in sorted(props.items())},
             'atts': {k: dict(sorted(v.items())) for k, v in sorted(atts.items())},
-            'parents': sorted(set(parents.split(','))) if parents else [], 'foreign': dict(sorted(foreign.items()))}
+            'parents': sorted(parents.split(',')) if parents else [], 'foreign': dict(sorted(foreign.items()))}
 
 
 def gen_op(rng, allow_copy=True):
@@ -266,9 +266,11 @@ def gen_op(rng, allow_copy=True):
     if r < 0.79:
         return ('del_attachment', a)
     if r < 0.83:
-        return ('set_parents', rng.sample(PARENTS, rng.randint(0, 2)))
+        ps = rng.sample(PARENTS, rng.randint(0, 2))
+        return ('set_parents', ps + ps[:1] if rng.random() < 0.3 else ps)          # now and then one hash twice in one call
     if r < 0.87:
-        return ('add_parents', rng.sample(PARENTS, rng.randint(0, 2)))
+        ps = rng.sample(PARENTS, rng.randint(0, 2))
+        return ('add_parents', ps + ps[:1] if rng.random() < 0.3 else ps)
     if r < 0.89:
         return ('set_type', rng.choice(['ta', 'tb']))
     if r < 0.91:
